@@ -50,7 +50,55 @@ func prop(t *rapid.T) {
 		window = 1 << 30 // follow to the end
 	}
 	first := sc.Epochs[0].Ref
-	main, err := cons.New(cons.NewEvents(), cfgMain, idx.Epoch(sc.FirstEpoch), first.Validators(), scen.SealFn(sc))
+	// the application of the running instance keeps the builders it made its validator sets from (a staking state) and
+	// goes on editing them while the epochs they were built for are running; restarted copies use scen.SealFn
+	var kept []pos.ValidatorsBuilder
+	keepBuilders := rapid.Bool().Draw(t, "applicationKeepsEditingItsBuilders")
+	buildKept := func(ids []idx.ValidatorID, ws []pos.Weight) *pos.Validators {
+		b := pos.NewBuilder()
+		for i, id := range ids {
+			b.Set(id, ws[i])
+		}
+		kept = append(kept, b)
+		return b.Build()
+	}
+	sealMain := scen.SealFn(sc)
+	genesisValidators := first.Validators()
+	if keepBuilders {
+		sealMain = func(epoch idx.Epoch, frame idx.Frame) *pos.Validators {
+			p := scen.PlanFor(sc, epoch)
+			if p == nil || p.SealAt == 0 || int(frame) != p.SealAt {
+				return nil
+			}
+			return buildKept(p.NextIDs, p.NextWs)
+		}
+		ws := make([]pos.Weight, len(first.Weights))
+		for i, w := range first.Weights {
+			ws[i] = pos.Weight(w)
+		}
+		genesisValidators = buildKept(first.IDs, ws)
+	}
+	editBuilders := func() {
+		for _, b := range kept {
+			switch rapid.IntRange(0, 5).Draw(t, "builderEdit") {
+			case 0:
+				b.Set(idx.ValidatorID(0xfffffff0), 1) // a newcomer stakes for a later epoch
+			case 1:
+				b.Set(idx.ValidatorID(0xfffffff0), 0)
+			case 2:
+				leaving, found := idx.ValidatorID(0), false
+				for id := range b {
+					if !found || id < leaving {
+						leaving, found = id, true
+					}
+				}
+				if found {
+					b.Set(leaving, 0) // somebody leaves
+				}
+			}
+		}
+	}
+	main, err := cons.New(cons.NewEvents(), cfgMain, idx.Epoch(sc.FirstEpoch), genesisValidators, sealMain)
 	if err != nil {
 		t.Fatalf("bootstrap: %v", err)
 	}
@@ -136,6 +184,7 @@ func prop(t *rapid.T) {
 			}
 			e := ref.Evs[i]
 			nb := len(main.Blocks)
+			editBuilders()
 			errMain := main.Process(ref.DagEvent(e, e.Frame))
 			if errMain != nil || len(main.Crits) > 0 {
 				fail("running instance: Process(e%d) = %v crit %v", i, errMain, main.Crits)
@@ -172,6 +221,9 @@ func prop(t *rapid.T) {
 		}
 	}
 	classes := []string{"cfg_restart_" + cfgRestart.Name, fmt.Sprintf("epochs_%d", len(sc.Epochs))}
+	if keepBuilders {
+		classes = append(classes, "application_edits_its_builders")
+	}
 	if staleAttempt {
 		classes = append(classes, "epoch_first_tried_with_outdated_weights")
 	}
